@@ -566,4 +566,91 @@ def read_file_key(vc):
              (not other.returned) if check else other.returned, repr(other.exc))
 
 
-C01._share()        # see the end of contracts/C01.py
+
+
+# ---------------------------------------------------------------------------------------
+# BytesReader: the short-read contract every truncation argument rests on.  For a buffer of any length N and any position:
+#   read(k), 0 <= k     returns exactly the next k bytes and advances by k  -  or raises the reader's exception (the format
+#                       error its owner chose) when fewer than k bytes are left; never a short result
+#   read() / read(-1) / read(None)   the rest, never an error
+#   read_int(k)         the big-endian value of read(k)
+#   eof()               <=> position == N (whatever the remaining bytes ARE);  ensure_eof() raises iff not eof()
+#   write(..)           always refused with the reader's exception
+
+def fam_reader(seed, tier):
+    import random
+    rnd = random.Random(seed)
+    kinds = ["read", "read_int", "rest", "rest-1", "rest-None"]
+    for N in (0, 1, 2, 5, 16, 40):
+        cases = [(rnd.randrange(0, N + 2), rnd.randrange(0, N + 3)) for _ in range(6)] + \
+                [(0, N), (N, 0), (max(0, N - 1), 1), (max(0, N - 1), 2), (N, 1), (N + 1, 0)]
+        for i, (a, k) in enumerate(cases):
+            for which in (kinds if i >= 6 else [kinds[i % 5]]):
+                yield dict(N=N, data=bytes(rnd.choice([0, 0, 1, 255, rnd.randrange(256)]) for _ in range(N)), a=a,
+                           k=min(k, 8) if which == "read_int" else k, which=which)
+
+
+@proof("C05/BytesReader", functions=[("bec2format.bytes_reader", "BytesReader.__init__"), ("bec2format.bytes_reader", "BytesReader.read"),
+                                     ("bec2format.bytes_reader", "BytesReader.read_int"), ("bec2format.bytes_reader", "BytesReader.eof"),
+                                     ("bec2format.bytes_reader", "BytesReader.ensure_eof"), ("bec2format.bytes_reader", "BytesReader.write")],
+       family=fam_reader)
+def bytes_reader(vc):
+    R = vc.module("bec2format.bytes_reader")
+
+    class Err(Exception):
+        pass
+
+    N = vc.int("N", 0, 1 << 20)
+    data = vc.bytes("data", N)
+    a = vc.int("a", 0, 1 << 20)      # a first read that moves the position
+    k = vc.int("k", 0, 1 << 20)      # the read under test
+    rdr = R.BytesReader(data, "the source", Err)
+    vc.prove("starts-at-0", rdr.tell() == 0)
+    first = vc.call(rdr.read, a)
+    if a <= N:
+        vc.prove("read(a).returns-the-first-a-bytes", first.returned and first.value == data[:a], repr(first.exc))
+        pos = a
+    else:
+        vc.prove("read-beyond-the-end=>the-reader's-exception", first.raised(Err), repr(first.exc))
+        vc.cover("short-first-read")
+        return
+    vc.prove("position-advanced-by-a", rdr.tell() == pos)
+    at_end = (pos == N)
+    vc.prove("eof<=>position==length(content-of-the-rest-is-irrelevant)", bool(rdr.eof()) == bool(at_end))
+    ee = vc.call(rdr.ensure_eof)
+    vc.prove("ensure_eof-raises-iff-not-eof", ee.returned if at_end else ee.raised(Err), repr(ee.exc))
+    w = vc.call(rdr.write, b"x")
+    vc.prove("write=>the-reader's-exception", w.raised(Err), repr(w.exc))
+    vc.prove("refused-calls-do-not-move-the-position", rdr.tell() == pos)
+    which = vc.choice("which", ["read", "read_int", "rest", "rest-1", "rest-None"])
+    if which == "read":
+        o = vc.call(rdr.read, k)
+        if pos + k <= N:
+            vc.prove("read(k)=the-next-k-bytes", o.returned and o.value == data[pos:pos + k], repr(o.exc))
+            vc.prove("read(k).advances-by-k", rdr.tell() == pos + k)
+            vc.cover("full-read")
+        else:
+            vc.prove("fewer-than-k-left=>the-reader's-exception(never-a-short-result)", o.raised(Err), repr(o.exc))
+            vc.cover("short-read")
+    elif which == "read_int":
+        vc.assume(k <= 8)                # the callers read 1-, 2- and 4-byte fields
+        o = vc.call(rdr.read_int, k)
+        if pos + k <= N:
+            if vc.symbolic:
+                from pyvc.models import IntModel
+                want = IntModel.from_bytes(data[pos:pos + k], "big")
+            else:
+                want = int.from_bytes(data[pos:pos + k], "big")
+            vc.prove("read_int(k)=big-endian-value-of-the-next-k-bytes", o.returned and o.value == want, repr(o.exc))
+        else:
+            vc.prove("read_int: fewer-than-k-left=>the-reader's-exception", o.raised(Err), repr(o.exc))
+    else:
+        o = vc.call(rdr.read, *({"rest": (), "rest-1": (-1,), "rest-None": (None,)}[which]))
+        vc.prove("read()/read(-1)/read(None)=the-rest,never-an-error", o.returned and o.value == data[pos:], repr(o.exc))
+        vc.prove("then-at-the-end", bool(rdr.eof()))
+    vc.cover("reader")
+
+
+from pyvc.harness import reuse as _reuse_c05  # noqa: E402
+_reuse_c05("C05/BytesReader", "C04/BytesReader.short-read=>error(never-a-short-result)")
+_reuse_c05("C05/BytesReader", "C14/BytesReader.refusals-are-the-owner's-format-error")
